@@ -217,6 +217,28 @@ func (vt *v2T) metaInputs(c *v2C, n int) (xs [][]byte, labels []string) {
 		xs = append(xs, scen[k])
 		labels = append(labels, "scenario/"+k)
 	}
+	// notice lines of every length between short and very long (a notice is a notice however long the list of holders
+	// is), with apostrophes, quotes and hyphens inside words: typographic forms make such a line longer in bytes
+	for k := 0; k < 2; k++ {
+		d := docs[vt.rng.Intn(len(docs))]
+		for len(d.Data) > 6000 {
+			d = docs[vt.rng.Intn(len(docs))]
+		}
+		var sb strings.Builder
+		for _, L := range []int{60, 150, 185, 193, 196, 198, 199, 200, 203, 215, 255, 300, 520, 1100} {
+			ln := "Copyright 2019 The O'Brien-D'Arcy \"Widget\" Authors"
+			for i := 0; len(ln) < L-8; i++ {
+				ln += fmt.Sprintf(", Mc'Holder-%d", i)
+			}
+			for len(ln) < L {
+				ln += "x"
+			}
+			sb.WriteString(ln + "\n")
+		}
+		sb.WriteString("\n")
+		xs = append(xs, append([]byte(sb.String()), d.Data...))
+		labels = append(labels, "longnotice/"+d.Key)
+	}
 	return
 }
 
@@ -231,6 +253,9 @@ func (vt *v2T) scenC05() {
 	for xi, x := range xs {
 		ra := vt.match(c, x, v2MatchOpts{})
 		kinds := vt.rng.Perm(len(v2C05Kinds))[:per]
+		if strings.HasPrefix(labels[xi], "longnotice/") {
+			kinds = vt.rng.Perm(len(v2C05Kinds)) // every kind on the few long-notice inputs
+		}
 		for _, ki := range kinds {
 			y, lmap := vt.applyTr(x, v2C05Kinds[ki])
 			rb := vt.match(c, y, v2MatchOpts{})
@@ -490,6 +515,12 @@ func (vt *v2T) scenC11() {
 			xs = append(xs, []byte(y))
 			labels = append(labels, "cap-scheme/"+labels[xi])
 		}
+		// a word that carries a protected phrase (scoring vetoes "apache", "gnu", ... appearing on one side only)
+		// replaced by an out-of-vocabulary word that contains the phrase as well
+		if y := strings.Replace(strings.Replace(x, "www.apache.org", "mirror.apache.example.net", -1), "www.gnu.org", "ftp.gnu.mirror.example", -1); y != x {
+			xs = append(xs, []byte(y))
+			labels = append(labels, "oov-phrase/"+labels[xi])
+		}
 		if lines := strings.Split(x, "\n"); len(lines) > 3 && vt.rng.Intn(4) == 0 {
 			k := 1 + vt.rng.Intn(len(lines)-2)
 			if ex := v2Exempt(lines); !ex[k] && !ex[k-1] {
@@ -500,10 +531,13 @@ func (vt *v2T) scenC11() {
 		}
 	}
 	for xi, x := range xs {
-		cp := append([]byte(nil), x...)
+		// the original is matched first: Normalize registers the words it keeps in the classifier's dictionary, and what
+		// a later call does with them is part of what is compared
+		ra := vt.match(c, x, v2MatchOpts{})
+		cp := v2Spare(x)
 		d0, w0 := len(c.c.docs), len(c.c.dict.words)
 		norm := c.c.Normalize(cp)
-		vt.emit(map[string]interface{}{"ev": "norm", "c": c.id, "unchanged": bytes.Equal(cp, x), "docs": []int{d0, len(c.c.docs)}, "dict": []int{w0, len(c.c.dict.words)}})
+		vt.emit(map[string]interface{}{"ev": "norm", "c": c.id, "unchanged": v2Intact(cp, x), "docs": []int{d0, len(c.c.docs)}, "dict": []int{w0, len(c.c.dict.words)}})
 		// Align: line k of the normalized text holds, as Match reads it, the words Match attributes to
 		// line k of the original (Normalize keeps the case of a word's first letter and the original
 		// spelling; both are folded by Match's own tokenisation)
@@ -536,7 +570,6 @@ func (vt *v2T) scenC11() {
 				break
 			}
 		}
-		ra := vt.match(c, x, v2MatchOpts{})
 		rb := vt.match(c, norm, v2MatchOpts{})
 		vt.pair(ra, rb, "normalize", 0, v2Ident(v2NLines(x)), true, nil, map[string]interface{}{"label": labels[xi], "nolines": false, "align": align, "alignclass": alignclass})
 		vt.reset(false)
